@@ -106,11 +106,11 @@ ATOMIC_PREFIXES = ('std::atomic<', 'RelaxedShared<')
 
 # static storage written after start-up (one reason per line); anything else fails C09.5
 KNOWN_STATICS = {
-    'TranspositionTable::updateTB::requiredTime': 'ENGINE only (updateTB is called by thread 0 before helpers start)',
+    'TranspositionTable::updateTB::<static S64>': 'ENGINE only (updateTB is called by thread 0 before helpers start)',
     'Book::numBookMoves': 'ENGINE only (book probe in doSearch)', 'Book::bookMap': 'ENGINE only', 'Book::rndGen': 'ENGINE only',
     'maxSubDTM': 'suppressed with reason (see assumptions)', 'maxDTM': 'suppressed with reason (see assumptions)',
     'maxDTZ': 'initialisation path only (TBProbe::initialize, engine idle)',
-    'TBProbe::initialize::initialized': 'option listener, engine idle', 'TBProbe::gtbInitialize::isInitialized': 'option listener, engine idle',
+    'TBProbe::initialize::<static bool>': 'option listener, engine idle', 'TBProbe::gtbInitialize::<static bool>': 'option listener, engine idle',
     'TBProbeData::maxPieces': 'option listener, engine idle', 'currentGtbCacheMB': 'option listener, engine idle',
     'currentGtbPath': 'option listener, engine idle', 'currentGtbWdlFraction': 'option listener, engine idle',
     'currentRtbPath': 'option listener, engine idle', 'gtbMaxPieces': 'option listener, engine idle',
@@ -382,10 +382,23 @@ def c4_handover(fb, rep, reach):
     cw = fb.find1('WorkerThread::createWorkers')
     if rep.need(clause, cw, 'WorkerThread::createWorkers'):
         makes = [(b, i, e) for b, i, e in cw.events() if e.get('k') == 'call' and 'make_shared<WorkerThread' in (e.get('n') or '')]
+        # local lists that a range-for with a waitInitialized() body iterates over
+        wait_lists = set()
+        for b_, i_, e_ in R.calls_in(cw, 'WorkerThread::waitInitialized'):
+            h_ = G.loop_header_of(cw, b_)
+            if h_ is not None:
+                for bb_, blk_ in cw.blocks.items():
+                    for ev_ in blk_['ev']:
+                        if ev_.get('k') == 'decl':
+                            for v_ in ev_.get('vars', []):
+                                if v_['n'].startswith('__range') and isinstance(v_.get('init'), dict) and v_['init'].get('k') == 'var':
+                                    wait_lists.add(v_['init'].get('id'))
         rep.floor(clause, 'worker creation sites', len(makes), 1)
         for b, i, e in makes:
             def recorded(ev):
-                return ev is not None and ev.get('k') == 'call' and cname(ev).split('::')[-1] == 'push_back' and isinstance(ev.get('recv'), dict) and ev['recv'].get('n') == 'newChildren'
+                # pushed onto a local list (the one the initialisation wait below iterates over)
+                return ev is not None and ev.get('k') == 'call' and cname(ev).split('::')[-1] == 'push_back' and isinstance(ev.get('recv'), dict) and \
+                    ev['recv'].get('k') == 'var' and ev['recv'].get('vk') == 'local' and ev['recv'].get('id') in wait_lists
             def next_make(ev, _e=e):
                 return ev is None or (ev.get('k') == 'call' and 'make_shared<WorkerThread' in (ev.get('n') or ''))
             w = cw.path_avoiding((b, i), next_make, recorded)
@@ -490,7 +503,8 @@ def c5_statics(fb, rep, reach):
                 rc = fb.records.get(v.get('rc') or '')
                 if rc is not None and (rc.get('empty') or not rc.get('fields')):
                     continue        # stateless object (e.g. the dummy search-tree sampler)
-            nm = v.get('q') or (fn.sname + '::' + v.get('n'))
+            # a function-local static is identified by its function and type (its local name is free to change)
+            nm = v.get('q') or ('%s::<static %s>' % (fn.sname, (v.get('t') or '?').replace('std::__cxx11::', 'std::')))
             seen.setdefault(nm, []).append((fn, e, rs))
     for nm in sorted(seen):
         fn, e, rs = seen[nm][0]
